@@ -3,6 +3,7 @@ package proofdb
 import (
 	"bytes"
 	"fmt"
+	"os"
 	"sort"
 
 	"github.com/ChainSafe/gossamer/dot/rpc/modules"
@@ -42,6 +43,8 @@ type psim struct {
 	absentInRequest bool // read-proof requests may contain absent keys (Generate refuses the whole request)
 	hashedComplete  bool // V1 values longer than 32 bytes are requested on the fault-free channel / claimed by hash
 	emptyComplete   bool // keys with an empty value are requested on the fault-free channel
+	emptyState      bool // read-proof requests may address a state without any key
+	hashClaims      bool // false claims "value = Blake2b(real value)" for V1 values longer than 32 bytes
 }
 
 // coreAdapter lets the real RPC StateModule.GetReadProof run over the real
@@ -73,10 +76,15 @@ func hasLong(m *su.RefMap) bool {
 
 func runProof(k *kernel.K) {
 	quiet()
+	if os.Getenv("VERIF_PROOFDB_TRACE") == "runs" {
+		fmt.Fprintf(os.Stderr, "RUN %d\n", k.RunIx)
+	}
 	s := &psim{k: k, g: &gen{k: k}, disk: simdisk.NewDisk()}
 	s.absentInRequest = knob(k, 1, 5, "absent-keys-in-request")
 	s.hashedComplete = knob(k, 1, 4, "hashed-values-on-clean-channel")
 	s.emptyComplete = knob(k, 1, 4, "empty-values-on-clean-channel")
+	s.emptyState = knob(k, 1, 10, "requests-to-the-empty-state")
+	s.hashClaims = knob(k, 1, 4, "hash-of-hashed-value-claims")
 	s.tries = state.NewTries()
 	ss, err := state.NewStorageState(s.disk.Open(), nil, s.tries)
 	if err != nil {
@@ -102,13 +110,22 @@ func (s *psim) build() {
 	k := s.k
 	b := s.states[k.Choose(len(s.states), "fork-base")]
 	root := b.root
+	for _, o := range s.states {
+		if o.root == b.root && o.ver != b.ver && root != trie.EmptyHash {
+			// the tries cache holds ONE trie object per root, with the version of whoever
+			// stored it first; a state of the other version with the same root (same
+			// content, no long values) is reloaded from the disk instead
+			s.tries.VerifDelete(root)
+			break
+		}
+	}
 	ts, err := s.ss.TrieState(&root)
 	if err != nil {
 		s.viol("build", "stored-state-not-loadable", "TrieState(%x) of stored state %d failed: %v", root[:4], b.id, err)
 	}
 	ver := b.ver
-	if b.model.Len() == 0 {
-		ver = su.Version(k.Choose(2, "version"))
+	if b.id == 0 {
+		ver = su.Version(k.Choose(2, "version")) // a chain starts with either version
 	} else if ver == su.V0 && !hasLong(b.model) && k.Bool(1, 3, "raise-version") {
 		ver = su.V1 // without long values the V0 and V1 encodings coincide: no lazily migrated state arises
 	}
@@ -118,6 +135,9 @@ func (s *psim) build() {
 	nops := k.Range(1, 14, "ops")
 	for i := 0; i < nops; i++ {
 		ks := m.Keys()
+		if os.Getenv("VERIF_PROOFDB_TRACE") == "1" {
+			fmt.Fprintf(os.Stderr, "TRACE build op %d of %d base s%d ver %d keys=%d\n", i, nops, b.id, ver, len(ks))
+		}
 		switch a := k.Choose(8, "op"); {
 		case a <= 4 || len(ks) == 0: // put (new key or overwrite via key reuse)
 			key, val := s.g.key(), s.g.val()
@@ -255,8 +275,11 @@ func (s *psim) request() {
 			cands = append(cands, x)
 		}
 	}
+	if s.emptyState {
+		cands = s.states // the empty states too (GenerateTrieProof panics on an empty trie: RootNode copies a nil root)
+	}
 	if len(cands) == 0 {
-		cands = s.states
+		return
 	}
 	x := cands[k.Choose(len(cands), "target-state")]
 	present := x.model.Keys()
@@ -302,10 +325,16 @@ func (s *psim) request() {
 	}
 	k.Event("request", "s%d (v%d, %d keys stored) keys=%d mode=%d rpc=%v absent=%v", x.id, x.ver, x.model.Len(), len(keys), mode, viaRPC, hasAbsent)
 
+	if os.Getenv("VERIF_PROOFDB_TRACE") == "1" {
+		fmt.Fprintf(os.Stderr, "TRACE generate s%d keys=%x\n", x.id, keys)
+	}
 	nodes, err := s.generate(x, keys, viaRPC)
 	if err != nil {
 		if hasAbsent {
 			k.Probe("generate-refuses-request-with-absent-key")
+			if !s.absentInRequest {
+				return // a request to the empty state: every key is absent; reported under the absent-keys knob only
+			}
 			s.viol("completeness", "generate-fails-for-request-with-absent-key", "read-proof request for %d keys of state %d, one of them absent: the prover returns no proof at all: %v", len(keys), x.id, err)
 			return
 		}
@@ -349,6 +378,16 @@ func (s *psim) request() {
 		k.Event("deliver", "undecodable proof message: rejected")
 		k.Probe("wire-message-rejected-by-decoder")
 		return
+	}
+	for _, n := range got {
+		if len(n) > len(enc) {
+			// pkg/scale returned a byte string longer than the whole message that carried
+			// it (zero-filled): that is C12's subject (SCALE decoding), not the proof
+			// verifier's; hashing gigabytes of zeros would only stall the run.
+			k.Event("deliver", "decoder produced a %d-byte node from a %d-byte message: dropped", len(n), len(enc))
+			k.Probe("scale-decoded-node-longer-than-message(C12)")
+			return
+		}
 	}
 	k.Event("deliver", "%d nodes", len(got))
 	// the exported proof-database constructor must cope with whatever arrives
@@ -418,8 +457,8 @@ func (s *psim) falseClaim(x *pst, keys [][]byte) (claim, bool) {
 				kind = "value-with-flipped-bit"
 			}
 		case 3: // the hash of the value instead of the value
-			if s.hashedIn(x, key) && !s.hashedComplete {
-				return claim{}, false // behind the hashed-values knob
+			if s.hashedIn(x, key) && !s.hashClaims {
+				return claim{}, false // behind a knob: the verifier hands out the stored hash as the value
 			}
 			v, kind = su.Blake2b256(real), "hash-of-value"
 		case 4: // a prefix / an extension of the value
@@ -465,6 +504,12 @@ func (s *psim) falseClaim(x *pst, keys [][]byte) (claim, bool) {
 // verify runs the real verifier on one claim and applies both oracles.
 func (s *psim) verify(x *pst, nodes [][]byte, c claim, clean bool) {
 	k := s.k
+	if os.Getenv("VERIF_PROOFDB_TRACE") == "1" {
+		fmt.Fprintf(os.Stderr, "TRACE verify %s key=%x val=%x root=%x nodes=%d\n", c.kind, c.key, c.val, x.root[:], len(nodes))
+		for _, n := range nodes {
+			fmt.Fprintf(os.Stderr, "   node %x\n", n)
+		}
+	}
 	err := proof.Verify(nodes, x.root[:], c.key, c.val)
 	real, present := x.model.Get(c.key)
 	truth := present && (len(c.val) == 0 || bytes.Equal(c.val, real))
